@@ -11,11 +11,23 @@ Problems(ev) ==
            \cup (IF ev.flatParentless THEN {} ELSE {"harness: flat model content"}))
     \cup (IF ev.rootUnchanged /\ ev.libraryUnchanged THEN {} ELSE {"flattenModel modified the model passed in or a library model"})
     \cup (IF LogCoherent(ev.log) THEN {} ELSE {"incoherent issue list"})
+\* Known deviations (KNOWN_FINDINGS.txt): each is one recorded world with exactly the recorded problems - anything else in that
+\* world, or the same problem in another world, is still reported
+NotValid == "the flat model of valid sources is not valid"
+OtherMeaning == "the flat model does not mean what the import hierarchy means"
+KnownWorlds == [FlatEquivChild |-> [world |-> "equivChild", problems |-> {NotValid, OtherMeaning}],
+                FlatSiblingClash |-> [world |-> "siblingClash", problems |-> {NotValid}],
+                FlatLocalKidClash |-> [world |-> "localKidClash", problems |-> {OtherMeaning}],
+                FlatImportedChildUnitsClash |-> [world |-> "importedChildUnitsClash", problems |-> {NotValid, OtherMeaning}],
+                FlatPassedOn |-> [world |-> "passedOn", problems |-> {OtherMeaning}],
+                FlatCascade |-> [world |-> "cascade", problems |-> {OtherMeaning}]]
+Dev(d, ev) == d \in DOMAIN KnownWorlds /\ ev.world = KnownWorlds[d].world /\ Problems(ev) = KnownWorlds[d].problems
 Next == /\ l <= Len(TraceLog) /\ l' = l + 1
         /\ LET ev == TraceLog[l] IN
            IF ev.e = "Reset" THEN TRUE
            ELSE IF ev.e # "flatten" THEN Verdict("bad", l, ev.sc, <<ev.e>>)
            ELSE IF Problems(ev) = {} THEN TRUE
+           ELSE IF \E d \in KnownDeviations : Dev(d, ev) THEN Verdict("known", l, ev.sc, CHOOSE d \in KnownDeviations : Dev(d, ev))
            ELSE Verdict("bad", l, ev.sc, <<Problems(ev), ev.world, ev.strict>>)
 Spec == Init /\ [][Next]_l
 Accepted == LET d == TLCGet("stats").diameter IN PrintT(<<"DEPTH", d>>) /\ d - 1 = Len(TraceLog)
